@@ -479,12 +479,21 @@ func (c *Ctx) ruleC12(m *scanfsm.Machine) {
 			r.Bad("C12-READER-END", "state "+q, bad+": the lexeme grows beyond what the reader measured (the rest of the line becomes part of the body)", c.P.Pos(m.Pos[q]))
 		}
 	}
+	c.ruleEOFOpen(m, a, "C12-EOF-OPEN")
+	if c.R.Tier == "thorough" {
+		c.ruleC12Grammar(m)
+	}
+}
+
+// ruleEOFOpen: see the comment inside.
+func (c *Ctx) ruleEOFOpen(m *scanfsm.Machine, a *scanfsm.Analysis, rule string) {
+	r := c.R
 	// the end of the input swallowed while a lexeme is open: the unfinished lexeme is not reported and no error is raised.
 	// For a well-formed document whose last line has no line break that loses a lexeme (F: a bare INCLUDE file name at
 	// the very end of a file). The three places where today's scanner does it are reached only by input that is cut
 	// inside a construct; they are named by the bytes that lead there (not by the name of the state, which a rename
 	// would change), and anything else is a violation.
-	r.Rule("C12-EOF-OPEN", "no reachable configuration of the scanner automaton consumes the end of the input without an error while a lexeme is open (its Begin was emitted, its End never is) - except the configurations reached by the named byte sequences, each of which cuts the input inside a construct (named exceptions, keyed by the shortest byte sequence that leads there): the last lexeme of a file without a final line break is reported like any other", 3)
+	r.Rule(rule, "no reachable configuration of the scanner automaton consumes the end of the input without an error while a lexeme is open (its Begin was emitted, its End never is) - except the configurations reached by the named byte sequences, each of which cuts the input inside a construct (named exceptions, keyed by the shortest byte sequence that leads there): the last lexeme of a file without a final line break is reported like any other", 3)
 	open := a.EOFLeavesOpen()
 	seenSt := map[string]bool{}
 	for _, o := range open {
@@ -495,13 +504,10 @@ func (c *Ctx) ruleC12(m *scanfsm.Machine) {
 		key := o.Open + " open after " + o.Trace
 		if why, ok := eofOpenExceptions[key]; ok {
 			r.Except(key, why)
-			r.Ok("C12-EOF-OPEN", key, "named exception: "+why+" (state "+o.State+")", c.P.Pos(m.Pos[o.State]))
+			r.Ok(rule, key, "named exception: "+why+" (state "+o.State+")", c.P.Pos(m.Pos[o.State]))
 			continue
 		}
-		r.Bad("C12-EOF-OPEN", key, "the end of the input is consumed in state "+o.State+" without an error: the "+o.Open+" lexeme that has begun is dropped - the last "+o.Open+" of a file that does not end with a line break is lost", c.P.Pos(m.Pos[o.State]))
-	}
-	if c.R.Tier == "thorough" {
-		c.ruleC12Grammar(m)
+		r.Bad(rule, key, "the end of the input is consumed in state "+o.State+" without an error: the "+o.Open+" lexeme that has begun is dropped - the last "+o.Open+" of a file that does not end with a line break is lost", c.P.Pos(m.Pos[o.State]))
 	}
 }
 
